@@ -51,6 +51,10 @@ BODIES = [
     ("tuple[int]", "return (x,)", None),
     ("int", "m = array(array(x, 1, 2), array(y, 3, 4))\n    a = m[0][0]\n    r = bump(m[1], 0)\n    b = m[1][0]\n    s = bump(m[0], 0)\n    return a + b * 10 + r * 100 + s * 1000 + m[0][0] * 10000", None),
     ("int", "p = Pair(x, y)\n    t = (p, array(x, y, 5))\n    r = bump(t[1], 2)\n    return t[0].a + t[1][2] * 10 + r * 100", None),
+    # a traced nat next to Python int constants (the constant stays an int: the result is signed)
+    ("bool", "n = mk_nat(x)\n    return n - 5 < 0", None),
+    ("int", "n = mk_nat(y)\n    return (7 - n) + (n - 9) * 2", None),
+    ("int", "n = mk_nat(y)\n    m = n + mk_nat(x)\n    return int(m) + int(n > m) + int(3 > n)", None),
     # ---- inside a known finding
     ("int", "return cfoo(3, x) + cfoo(2, y)", "python-int-argument-for-nat-parameter"),
 ]
@@ -66,7 +70,8 @@ _tag = f"{BATCH[0]}-{BATCH[-1]}x{len(BATCH)}" + (f"_{REGION}" if REGION else "")
 
 def _module_text():
     out = [e4_corpus.HEADER, "from guppylang.std.builtins import nat, comptime\n\n",
-           "@guppy\ndef cfoo(n: nat @ comptime, x: int) -> int:\n    return x + int(n)\n\n"]
+           "@guppy\ndef cfoo(n: nat @ comptime, x: int) -> int:\n    return x + int(n)\n\n",
+           "@guppy\ndef mk_nat(a: int) -> nat:\n    return nat(abs(a))\n\n"]
     for i in IDX:
         ret, body, _ = BODIES[i]
         for deco, nm in (("@guppy", "g"), ("@guppy.comptime", "c")):
